@@ -5,6 +5,7 @@ import PcVerif.Ops.Geometry
 import PcVerif.Ops.TextFormats
 import PcVerif.Ops.Xml
 import PcVerif.Ops.TextWriters
+import PcVerif.Ops.Scc
 namespace PcVerif.Ops
-def table : List (String × Proto.Handler) := utilOps ++ detectOps ++ baseOps ++ geoOps ++ textFormatOps ++ xmlOps ++ samiWriterOps ++ textWriterOps ++ xmlTextOps
+def table : List (String × Proto.Handler) := utilOps ++ detectOps ++ baseOps ++ geoOps ++ textFormatOps ++ xmlOps ++ samiWriterOps ++ textWriterOps ++ xmlTextOps ++ sccOps
 end PcVerif.Ops
